@@ -78,13 +78,15 @@ def run(ctx, replay):
     rc = rand_config(c)
     if replay:
         return corelib.replay_core(ctx, replay, rc, OBS)
-    corelib.run_core(ctx, c, invariants=["BoundedReaction", "RouteOK"], properties=[], obs=OBS,
+    jobs = []          # the graphs are independent: they run side by side
+    jobs.append(lambda: corelib.run_core(ctx, c, invariants=["BoundedReaction", "RouteOK"], properties=[], obs=OBS,
                      rand_count=60 if ctx.quick() else 800, rand_depth=30 if ctx.quick() else 50,
-                     rand_loggers=3, rand_cfg=rc, key_fn=explain)
-    corelib.run_core(ctx, config_files(ctx.quick()), invariants=["BoundedReaction", "RouteOK"], properties=[], obs=OBS,
-                     rand_count=0, rand_depth=0, rand_loggers=1, key_fn=explain, tag="files")
-    corelib.run_core(ctx, config_many(ctx.quick()), invariants=["BoundedReaction", "RouteOK"], properties=[], obs=OBS,
-                     rand_count=0, rand_depth=0, rand_loggers=2, key_fn=explain, tag="many")
+                     rand_loggers=3, rand_cfg=rc, key_fn=explain))
+    jobs.append(lambda: corelib.run_core(ctx, config_files(ctx.quick()), invariants=["BoundedReaction", "RouteOK"], properties=[], obs=OBS,
+                     rand_count=0, rand_depth=0, rand_loggers=1, key_fn=explain, tag="files"))
+    jobs.append(lambda: corelib.run_core(ctx, config_many(ctx.quick()), invariants=["BoundedReaction", "RouteOK"], properties=[], obs=OBS,
+                     rand_count=0, rand_depth=0, rand_loggers=2, key_fn=explain, tag="many"))
+    corelib.run_jobs(jobs)
     ctx.extra["fail_assignments"] = len(c["fail_sets"])
     ctx.assumptions += ["faults are injected by the recording writers (Write returns an error and writes nothing)",
                         "real stdout/stderr never fail",
